@@ -569,6 +569,17 @@ func (tr *fnTrans) builtin(b *ssa.Builtin, cc *ssa.CallCommon, ins ssa.Instructi
 		return nil
 	case "print", "println":
 		return nil
+	case "Sizeof":
+		at := cc.Args[0].Type()
+		if tp, ok := types.Unalias(at).(*types.TypeParam); ok {
+			if _, _, isInt := intTypeParam(tp); isInt {
+				tr.useTypeParam(at)
+				return []Term{{"(div " + tpBitsName(tp) + " 8)", "Int", types.Typ[types.Uintptr]}}
+			}
+		}
+		if bits, _, ok := intBits(at); ok {
+			return []Term{{fmt.Sprint(bits / 8), "Int", types.Typ[types.Uintptr]}}
+		}
 	case "ssa:wrapnilchk":
 		a := tr.val(cc.Args[0])
 		tr.oblige("nil", fmt.Sprintf("nil.wrapnilchk#%d", tr.ord("nil.wrapnilchk")), not(app("=", a.S, "nilref")), ins.Pos(), nil, "")
@@ -796,9 +807,9 @@ func (tr *fnTrans) specDecls() string {
 		order = append(order, name)
 	}
 	// axioms: include those that mention a used function; iterate to a fixpoint
-	type ax struct {
-		text string
-		used bool
+	if c.usedFuns["typeOfDyn"] {
+		c.useFun("kind")
+		c.useFun("elem")
 	}
 	axText := map[*AxiomDecl]string{}
 	for changed := true; changed; {
@@ -843,6 +854,12 @@ func (tr *fnTrans) specDecls() string {
 		if s, ok := axText[a]; ok {
 			fmt.Fprintf(&sb, "(assert %s)\n", s)
 		}
+	}
+	if c.usedFuns["typeOfDyn"] {
+		for _, f := range c.tidFacts() {
+			fmt.Fprintf(&sb, "(assert %s)\n", f)
+		}
+		c.trusted["reflect-facts-about-concrete-types"] = true
 	}
 	return sb.String()
 }
